@@ -51,9 +51,11 @@ let hex_of_pos p =
 let hex_of_z = function Z0 -> "0" | Zpos p -> hex_of_pos p | Zneg p -> "-" ^ hex_of_pos p
 let b01 b = if b then "1" else "0"
 
+let cur_valid = ref true
 let state_line t =
-  Printf.sprintf "S %s %s %s %s %s %s %s %s" (hex_of_z t.tableSize) (hex_of_z t.usedSize) (hex_of_z t.topBits)
+  Printf.sprintf "S %s %s %s %s %s %s %s %s %s" (hex_of_z t.tableSize) (hex_of_z t.usedSize) (hex_of_z t.topBits)
     (hex_of_z t.usedShift) (hex_of_z t.usedMask) (hex_of_z t.generation) (hex_of_z t.contemptHash) (b01 t.tbResident)
+    (b01 !cur_valid)
 
 let z1 = Zpos XH
 let zadd = Z.add
@@ -117,6 +119,8 @@ let leaf args =
   | "nextGeneration" -> " " ^ h (tT_nextGeneration (a 1))
   | f -> " ?unknown " ^ f
 
+let allocfail = ref Z0
+
 let () =
   let tt = ref None in
   let set_state = function
@@ -142,7 +146,33 @@ let () =
           let p = prep !atom_g closed in
           List.iter (fun (k, d) -> print_endline (if allowed_prep p k (k, d) then "OK" else "BAD")) (List.rev !atom_probes);
           Printf.printf "C %s %d\n" (b01 fix) (List.length closed - n0)
-      | "NEW" :: n :: _ -> set_state (new_tt (z_of_hex n))
+      | "NEW" :: n :: _ ->
+          (match reSizeA fresh (z_of_hex n) true with
+           | Returned o -> cur_valid := o.valid; set_state (Ok o.st)
+           | _ -> print_endline "ERR new")
+      | ["ALLOCFAIL"; thr] -> allocfail := z_of_hex thr; print_endline ("A " ^ hex_of_z !allocfail)
+      | cmd :: args when (match !tt with Some _ -> (cmd = "RESIZE" || cmd = "SETUPTT") | None -> false) ->
+          let t = (match !tt with Some t -> t | None -> assert false) in
+          let n = z_of_hex (List.hd args) in
+          let o = { valid = !cur_valid; st = t } in
+          let grant sz = not (Z.gtb !allocfail Z0 && Z.geb (round_size sz) !allocfail) in
+          let fin o' x = cur_valid := o'.valid; tt := Some o'.st; print_endline (state_line o'.st ^ " x=" ^ string_of_int x) in
+          if cmd = "RESIZE" then
+            (match reSizeA o n (grant n) with
+             | Returned o' -> fin o' 0
+             | Threw o' -> fin o' 1
+             | RErr -> print_endline "ERR resize")
+          else begin
+            let rec sizes k sz = if k = 0 then [] else sz :: sizes (k - 1) (Z.div sz (z_of_int 2)) in
+            let oracle = List.map grant (sizes 70 n) in
+            let rec nat_to_int = function O -> 0 | S m -> 1 + nat_to_int m in
+            let (o', k) = setupTT setupFuel o n oracle in
+            fin o' (nat_to_int k)
+          end
+      | cmd :: args when (not !cur_valid) && List.mem cmd ["CLEAR"; "TBON"; "TBOFF"; "INS"; "PROBE"; "BUSY"; "PUTB"; "GETB"; "TBW"; "TBR"; "TBSUM"] ->
+          (match !tt with
+           | Some t -> print_endline ("NULL " ^ hex_of_z t.tableSize ^ " sig=?")
+           | None -> print_endline "ERR no table")
       | cmd :: args ->
         (match !tt with
          | None -> print_endline "ERR no table"
